@@ -1,7 +1,8 @@
 """C17 — a failing track cannot take the rest of the performance down.
 Theorems: coq/Props/C17.v (tolerant containment for every fault site, removal of the failing track on the tick of the fault,
 one tick of time per tick; non-interference = the merge theorem of C07 with the faulty track as a neighbour; intolerant
-propagation; action-callback exceptions are swallowed in both modes, StopIteration ends the track).  Lemmas: Sched/FaultProofs.v.
+propagation; action-callback exceptions are swallowed in both modes, StopIteration ends the track).  Lemmas: Sched/FaultProofs.v,
+Sched/RenameProofs.v (track ids are names: every operation commutes with an order-preserving renaming of them).
 Correspondence: C07-style joint runs with one or two injected faults (stream item that raises on evaluation, a value that makes
 Event(...) raise, the j-th note_on/control/program_change of the device raising, action callbacks raising Exception or
 StopIteration), every failing track / event index of the base scenario, both tolerance modes, through tick() and (finite
@@ -20,7 +21,7 @@ import copy
 PROP = "C17"
 META = {
  "engine": "S-scheduler",
- "text": "Coq theorems (Props/C17.v) about the executable model of Timeline.tick/Track.tick (Sched/Model.v), for ALL states, numbers and orders of tracks and every fault site (stream item raising = pattern evaluation or Event construction, a device call raising, an action callback raising): with ignore_exceptions the tick never returns an exception (case analysis over every branch of every track's turn, induction over the track list), the failing track is no longer scheduled after the tick of the fault and its pending releases have become timeline actions, every completed tick advances the clock by exactly one tick (n ticks = n*tau); non-interference: for stream faults the calls of every other track in every tick equal those of its solo run and hence those of the run without the failing track (instance of the C07 merge theorem with the faulty track as neighbour); for device faults (the call counter couples tracks) the turn of a healthy track is proved independent of everything but its own record, the clock and the counter; without ignore_exceptions the same fault makes the tick return the exception, the later tracks of the tick do not run and the clock does not advance; an exception raised by an action callback is swallowed in both modes and the track continues with its next event, StopIteration from the callback finishes the track on that tick if it has nothing pending (and removes it if remove_when_done). Tied to /repo on every run: C07-style joint runs with one or two injected faults at every (failing track, event index) of the base scenario, both modes, through tick() and Timeline.run(), compared with the model in Coq call by call, with an independent containment/non-interference/clock oracle.",
+ "text": "Coq theorems (Props/C17.v) about the executable model of Timeline.tick/Track.tick (Sched/Model.v), for ALL states, numbers and orders of tracks and every fault site (stream item raising = pattern evaluation or Event construction, a device call raising, an action callback raising): with ignore_exceptions the tick never returns an exception (case analysis over every branch of every track's turn, induction over the track list), the failing track is no longer scheduled after the tick of the fault and its pending releases have become timeline actions, every completed tick advances the clock by exactly one tick (n ticks = n*tau); non-interference: for stream faults the calls of every other track in every tick equal those of its solo run and hence those of the run without the failing track, whether the failing track was scheduled before or after it (instance of the C07 merge theorem with the faulty track as neighbour, plus the invariance of every operation of the model under an order-preserving renaming of track ids, Sched/RenameProofs.v: leaving a track out shifts the ids of the later ones); for device faults (the call counter couples tracks) the turn of a healthy track is proved independent of everything but its own record, the clock and the counter; without ignore_exceptions the same fault makes the tick return the exception, the later tracks of the tick do not run and the clock does not advance; an exception raised by an action callback is swallowed in both modes and the track continues with its next event, StopIteration from the callback finishes the track on that tick if it has nothing pending (and removes it if remove_when_done). Tied to /repo on every run: C07-style joint runs with one or two injected faults at every (failing track, event index) of the base scenario, both modes, through tick() and Timeline.run(), compared with the model in Coq call by call, with an independent containment/non-interference/clock oracle.",
  "note": "Trusted: Coq kernel+VM; the Python harness. Modelled, not verified: float arithmetic; Timeline.run()'s try/except (modelled by the tick results; exercised through run() on the implementation only). A callback StopIteration while the track still has a note sounding does not end the track (Track.tick only finishes a track with no pending note-off): modelled as the code behaves, judged by the model comparison only.",
 }
 
